@@ -42,7 +42,11 @@ Inductive base_event :=
 | BDrop (i : nat)
 | BVerify (i : nat)
 | BNvid (i : nat)
-| BReport (i : nat).
+| BReport (i : nat)
+| BLend (i : nat)                  (* u.make_ref(u.clone()) *)
+| BCount (i : nat)                 (* observe Arc::strong_count *)
+| BCallOwn (i : nat) (m a : N)     (* move the instance into a scope, call, leave the scope *)
+| BArm (n : N).                    (* the next real function (1) / default body (2) panics *)
 
 Record event := { ev_ctx : ctx; ev_base : base_event }.
 
@@ -50,13 +54,16 @@ Record world := {
   w_bc : buildcfg;
   w_cfg : config;
   w_state : state;
-  w_insts : list inst
+  w_insts : list inst;
+  w_armed : N
 }.
 
 Definition set_insts (w : world) (is : list inst) : world :=
-  {| w_bc := w_bc w; w_cfg := w_cfg w; w_state := w_state w; w_insts := is |}.
+  {| w_bc := w_bc w; w_cfg := w_cfg w; w_state := w_state w; w_insts := is; w_armed := w_armed w |}.
 Definition set_state (w : world) (s : state) : world :=
-  {| w_bc := w_bc w; w_cfg := w_cfg w; w_state := s; w_insts := w_insts w |}.
+  {| w_bc := w_bc w; w_cfg := w_cfg w; w_state := s; w_insts := w_insts w; w_armed := w_armed w |}.
+Definition set_armed (w : world) (n : N) : world :=
+  {| w_bc := w_bc w; w_cfg := w_cfg w; w_state := w_state w; w_insts := w_insts w; w_armed := n |}.
 
 Definition live_inst (w : world) (i : nat) : option inst :=
   match nth_opt (w_insts w) i with
@@ -76,6 +83,46 @@ Definition show_action (m a : N) (act : action) : string :=
   | ActPanic e => "P:" ++ render_error hinfo e
   end.
 
+(* user code that panics (harness conventions): answer functions with id >= 1000,
+   Clone of a repeatedly returned value with tag >= 1000, the armed real function
+   or default body.  None of this is mock-induced: nothing is recorded. *)
+Definition user_panic (armed : N) (act : action) : option string :=
+  match act with
+  | ActAnswer f => if 1000 <=? f then Some "user:ans" else None
+  | ActReturn (RVTag v) => if 1000 <=? v then Some "user:clone" else None
+  | ActReal => if armed =? 1 then Some "user:real" else None
+  | ActDefault => if armed =? 2 then Some "user:dflt" else None
+  | _ => None
+  end.
+
+Definition disarm (armed : N) (act : action) : N :=
+  match act with
+  | ActReal => if armed =? 1 then 0 else armed
+  | ActDefault => if armed =? 2 then 0 else armed
+  | _ => armed
+  end.
+
+(* what a call does to the world: shared state, `panicked` flag (no_std), helper clone *)
+Definition after_call (w : world) (i : nat) (it : inst) (s' : state) (act : action) : world :=
+  let w1 := set_armed (set_state w s') (disarm (w_armed w) act) in
+  match act with
+  | ActPanic _ => set_insts w1 (upd (w_insts w1) i (set_panicked it))
+  | ActDefault => set_insts w1 (upd (w_insts w1) i (set_helper it))
+  | _ => w1
+  end.
+
+Definition show_call (w : world) (m a : N) (act : action) : string :=
+  match user_panic (w_armed w) act with
+  | Some msg => "P:" ++ msg
+  | None => show_action m a act
+  end.
+
+Definition call_panics (w : world) (act : action) : bool :=
+  match act with
+  | ActPanic _ => true
+  | _ => match user_panic (w_armed w) act with Some _ => true | None => false end
+  end.
+
 Definition show_panic (o : option string) : string :=
   match o with None => "ok" | Some msg => "P:" ++ msg end.
 
@@ -91,13 +138,37 @@ Definition step (w : world) (e : event) : world * string :=
     | None => (w, "invalid")
     | Some it =>
       let '(s', act) := call hinfo N haccepts hdebug (w_cfg w) (w_state w) m a in
-      let w1 := set_state w s' in
-      let w2 := match act with
-                | ActPanic _ => set_insts w1 (upd (w_insts w1) i (set_panicked it))
-                | _ => w1
-                end in
-      (w2, show_action m a act)
+      (after_call w i it s' act, show_call w m a act)
     end
+  | BCallOwn i m a =>
+    match live_inst w i with
+    | None => (w, "invalid")
+    | Some it =>
+      let '(s', act) := call hinfo N haccepts hdebug (w_cfg w) (w_state w) m a in
+      let w1 := after_call w i it s' act in
+      match nth_opt (w_insts w1) i with
+      | None => (w1, "invalid")
+      | Some it1 =>
+        (* the scope owning the instance is left: normally, or by unwinding *)
+        let unwinding := call_panics w act in
+        let x1 := {| x_other_thread := x_other_thread x; x_unwinding := unwinding |} in
+        let r := drop_panic hinfo (w_bc w1) (w_cfg w1) (w_state w1) x1 it1 (count_after_release (w_insts w1) it1) in
+        (kill w1 i it1,
+         if unwinding then match r with None => show_call w m a act | Some _ => "ABORT" end
+         else show_call w m a act ++ "|" ++ show_panic r)
+      end
+    end
+  | BLend i =>
+    match live_inst w i with
+    | None => (w, "invalid")
+    | Some it => (set_insts w (upd (w_insts w) i (add_lent it)), "ok")
+    end
+  | BCount i =>
+    match live_inst w i with
+    | None => (w, "invalid")
+    | Some it => (w, dec (strong_count (w_insts w)))
+    end
+  | BArm n => (set_armed w n, "ok")
   | BClone i =>
     match live_inst w i with
     | None => (w, "invalid")
@@ -107,7 +178,7 @@ Definition step (w : world) (e : event) : world * string :=
     match live_inst w i with
     | None => (w, "invalid")
     | Some it =>
-      let r := drop_panic hinfo (w_bc w) (w_cfg w) (w_state w) x it (strong_count (w_insts w)) in
+      let r := drop_panic hinfo (w_bc w) (w_cfg w) (w_state w) x it (count_after_release (w_insts w) it) in
       if x_unwinding x
       then (kill w i it, match r with None => "P:user" | Some _ => "ABORT" end)
       else (kill w i it, show_panic r)
@@ -118,7 +189,7 @@ Definition step (w : world) (e : event) : world * string :=
     | Some it =>
       if negb (i_original it) then (kill w i it, "P:" ++ msg_verify_clone)
       else (kill w i it,
-            show_panic (teardown_panic hinfo (w_bc w) (w_cfg w) (w_state w) x it (strong_count (w_insts w))))
+            show_panic (teardown_panic hinfo (w_bc w) (w_cfg w) (w_state w) x it (count_after_release (w_insts w) it)))
     end
   | BNvid i =>
     match live_inst w i with
@@ -138,7 +209,7 @@ Definition step (w : world) (e : event) : world * string :=
       match act with
       | ActReal =>
         (kill w1 i it,
-         match teardown hinfo (w_bc w1) (w_cfg w1) (w_state w1) x it (strong_count (w_insts w1)) with
+         match teardown hinfo (w_bc w1) (w_cfg w1) (w_state w1) x it (count_after_release (w_insts w1) it) with
          | TdOk => "exit:SUCCESS"
          | TdErrs _ => "exit:FAILURE"
          | TdPanic msg => "P:" ++ msg
@@ -147,7 +218,7 @@ Definition step (w : world) (e : event) : world * string :=
       | ActReturn v =>
         (* the configured exit code is returned, then `self` is dropped: verification in drop *)
         (kill w1 i it,
-         match drop_panic hinfo (w_bc w1) (w_cfg w1) (w_state w1) x it (strong_count (w_insts w1)) with
+         match drop_panic hinfo (w_bc w1) (w_cfg w1) (w_state w1) x it (count_after_release (w_insts w1) it) with
          | None => "exit:" ++ show_retval v
          | Some msg => "P:" ++ msg
          end)
@@ -175,7 +246,7 @@ Definition run_case (k : case) : list string :=
   | None => ["illtyped"]
   | Some (inr msg) => ["new:P:" ++ msg]
   | Some (inl cfg) =>
-    "new:ok" :: steps {| w_bc := k_bc k; w_cfg := cfg; w_state := init_state; w_insts := [new_original] |}
+    "new:ok" :: steps {| w_bc := k_bc k; w_cfg := cfg; w_state := init_state; w_insts := [new_original]; w_armed := 0 |}
                       (k_events k)
   end.
 
@@ -209,6 +280,10 @@ Definition drop_ (i : N) := BDrop (N.to_nat i).
 Definition verify_ (i : N) := BVerify (N.to_nat i).
 Definition nvid_ (i : N) := BNvid (N.to_nat i).
 Definition report_ (i : N) := BReport (N.to_nat i).
+Definition lend_ (i : N) := BLend (N.to_nat i).
+Definition count_ (i : N) := BCount (N.to_nat i).
+Definition callown_ (i m a : N) := BCallOwn (N.to_nat i) m a.
+Definition arm_ (n : N) := BArm n.
 Definition Pt (m d : option N) (ops : list op) : pat_spec :=
   {| ps_matcher := m; ps_dbg := d; ps_ops := ops |}.
 Definition Kase (bc : buildcfg) (partial : bool) (ts : list terminal) (es : list event) : case :=
